@@ -493,6 +493,8 @@ fn addr0_class(e: &E) -> u8 {
         return 0;
     }
     match e {
+        // the bare 40-digit zero literal is the zero address written without a conversion: gray
+        E::HexNumberLiteral(_, h) if h.len() == 42 && all_zero_digits(&h[2..]) => 1,
         E::Parenthesis(_, inner) => addr0_class(inner).min(1),
         E::FunctionCall(_, callee, args) => match (&**callee, args.len()) {
             (E::Type(_, pt::Type::Payable), 1) | (E::Type(_, pt::Type::AddressPayable), 1) => addr0_class(&args[0]).min(1),
@@ -2017,6 +2019,49 @@ pub fn sweep_texts(items: &[(String, String, Vec<usize>)], detectors: &[Detector
             s.violations.extend(vs);
         }
         s.back_to_back_pairs = pairs.len() as u64;
+        reduce(&mut s.violations);
+    }
+    // ---- second layout: every 8th program (at most ~2000) again with CRLF line ends.  Which construct is reported is a
+    //      question about the tree, so the verdicts are the same; what can differ is only the line arithmetic.
+    if !items.is_empty() {
+        let stride = (items.len() / 2000).max(8);
+        let sel: Vec<usize> = (0..items.len()).step_by(stride).collect();
+        let cres = util::par_map(sel.len(), |k| {
+            let (label, text, toks) = &items[sel[k]];
+            let lf_before: Vec<usize> = {
+                let mut acc = Vec::with_capacity(text.len() + 1);
+                let mut n = 0usize;
+                for b in text.bytes() {
+                    acc.push(n);
+                    if b == b'\n' {
+                        n += 1;
+                    }
+                }
+                acc.push(n);
+                acc
+            };
+            if text.contains('\r') {
+                return (Vec::new(), 0u64, None);
+            }
+            let text2 = text.replace('\n', "\r\n");
+            let toks2: Vec<usize> = toks.iter().map(|&o| o + lf_before[o.min(text.len())]).collect();
+            let r = check_text(&text2, &toks2, &format!("{}:crlf", label), detectors, mode);
+            let mut vs = Vec::new();
+            for mut v in r.violations {
+                v.observed = format!("{} [the same program with CRLF line ends]", v.observed);
+                vs.push(v);
+            }
+            (vs, r.calls, r.conform.err())
+        });
+        for (vs, c, m) in cres {
+            s.calls += c;
+            s.violations.extend(vs);
+            if let Some(e) = m {
+                if s.machinery.len() < 20 {
+                    s.machinery.push(e);
+                }
+            }
+        }
         reduce(&mut s.violations);
     }
     s.distinct_outcomes = outcomes.len() as u64;
